@@ -165,9 +165,15 @@ Definition matches (a b : ident) : bool :=
   rrdata_match a b && entry_eq a b
   && (if is_addr_data (i_data a) then i_if a =? i_if b else true).
 
-(* DnsRecordExt::suppressed_by_answer *)
+(* DnsRecordExt::suppressed_by_answer: the cache-flush bit is not part of the identity here -
+   the other record is compared with OUR cache-flush bit in place of its own *)
+Definition with_flush (a : ident) (f : bool) : ident :=
+  mkId (i_name a) (i_type a) (i_class a) f (i_data a) (i_if a).
+
 Definition suppressed_by_answer (mine : ident) (mine_ttl : N) (theirs : ident) (theirs_ttl : N) : bool :=
-  matches mine theirs && suppress_ttl_cond mine_ttl theirs_ttl.
+  (if Bool.eqb (i_flush theirs) (i_flush mine) then matches mine theirs
+   else matches mine (with_flush theirs (suppress_flush_override (i_flush mine))))
+  && suppress_ttl_cond mine_ttl theirs_ttl.
 
 (* DnsRecordExt::suppressed_by: some answer of the incoming message suppresses *)
 Definition suppressed_by (mine : ident) (mine_ttl : N) (kas : list (ident * N)) : bool :=
